@@ -23,7 +23,9 @@ Elems == IF Alphabet = "full"
          THEN {ElemNode(NS_html, N_div, <<>>, <<>>), ElemNode(NS_html, N_div, <<AttrId, AttrXmlLang, AttrLang>>, <<>>),
                ElemNode(NS_svg, N_svg, <<AttrXlink, AttrId>>, <<>>), ElemNode(NS_html, N_br, <<>>, <<>>),
                ElemNode(None, N_br, <<AttrId>>, <<>>), ElemNode(NS_svg, N_br, <<>>, <<>>),
-               ElemNode(NS_html, N_event_source, <<>>, <<>>)}
+               ElemNode(NS_html, N_event_source, <<>>, <<>>),
+               \* metacharacters of the internal name encodings inside names: g}h:{i}  with attribute a}b:c="z"
+               ElemNode(NS_svg, <<103, 125, 104, 58, 123, 105, 125>>, <<<<None, <<97, 125, 98, 58, 99>>, <<122>>>>>>, <<>>)}
          ELSE {ElemNode(NS_html, N_div, <<>>, <<>>), ElemNode(NS_html, N_br, <<>>, <<>>), ElemNode(NS_html, N_event_source, <<>>, <<>>)}
 Texts == (IF Alphabet = "full" THEN {TextNode(<<120>>), TextNode(<<32>>), TextNode(<<10, 120, 32, 121, 9>>)}
           ELSE {TextNode(<<120>>), TextNode(<<32, 121, 32>>)})
